@@ -235,7 +235,7 @@ def coq_make(targets, timeout=3000):
 def hygiene():
     """no axioms / admits / disabled checks anywhere in the development"""
     bad = []
-    pat = re.compile(r"\b(Admitted|admit|Axiom|Axioms|Parameter|Parameters|Conjecture|Hypothesis|Hypotheses|"
+    pat = re.compile(r"\b(Admitted|admit|Axiom|Axioms|Parameter|Parameters|Conjecture|"
                      r"Unset\s+Guard\s+Checking|bypass_check|Admit\s+Obligations|type-in-type|impredicative-set|"
                      r"Unset\s+Universe\s+Checking|Unset\s+Positivity\s+Checking)\b")
     src = os.path.join(VERIF, "coq")
@@ -254,7 +254,7 @@ def hygiene():
                 depth += 1
             elif re.match(r"End\s+\w+", s) and depth > 0:
                 depth -= 1
-            elif re.match(r"(Variable|Variables|Context)\b", s) and depth == 0:
+            elif re.match(r"(Variable|Variables|Context|Hypothesis|Hypotheses)\b", s) and depth == 0:
                 bad.append("%s: %s outside a Section" % (fn, s[:40]))
     return bad
 
